@@ -776,6 +776,8 @@ class BasePlaceholderManager(MpfController):
                 subscription = subscription + [value.subscribe_attribute(slice_value)]
             try:
                 return value[slice_value], subscription
+            except TypeError:
+                raise TemplateEvalError(subscription)
             except ValueError:
                 if subscribe:   # pylint: disable-msg=no-else-raise
                     raise TemplateEvalError(subscription)
@@ -785,7 +787,10 @@ class BasePlaceholderManager(MpfController):
             lower, subscription = self._eval_next(node.slice.lower, variables, subscribe, subscription)
             upper, subscription = self._eval_next(node.slice.upper, variables, subscribe, subscription)
             step, subscription = self._eval_next(node.slice.step, variables, subscribe, subscription)
-            return value[lower:upper:step], subscription
+            try:
+                return value[lower:upper:step], subscription
+            except TypeError:
+                raise TemplateEvalError(subscription)
 
         raise TypeError(type(node.slice))
 
